@@ -36,6 +36,15 @@ Theorem C01_pre_block_total : forall txs h s, exists s', pre_block txs h s = Ok 
 Proof. exact pre_block_total. Qed.
 Print Assumptions C01_pre_block_total.
 
+(* PrepareProposal (custom handler of app/abci_proposal.go) never returns more than MaxTxBytes:
+   CometBFT would refuse the proposal and the proposer could propose nothing - whatever the
+   verified DA items and whatever the SDK's default handler selects within its own contract *)
+Theorem C01_prepare_proposal_fits : forall sel max split entries,
+  (forall m, 0 <= m -> zsumL (sel m) <= m) -> 0 <= max -> 0 <= split -> Forall (fun e => 0 <= e) entries ->
+  zsumL (prepare_proposal true sel max split entries) <= max.
+Proof. exact prepare_proposal_fits. Qed.
+Print Assumptions C01_prepare_proposal_fits.
+
 (* the mint function never panics: supplies below 2^255, ratio in [0,1], any block time *)
 Theorem C01_mint_total : forall i,
   0 <= mi_fee_supply i -> 0 <= mi_bond_supply i -> mi_fee_supply i + mi_bond_supply i < 2 ^ 255 ->
@@ -244,6 +253,15 @@ Theorem C01_blocked_recipient_halts_refuted :
   = Err E_BLOCKED.
 Proof. exact sc_blocked_recipient_halts. Qed.
 Print Assumptions C01_blocked_recipient_halts_refuted.
+
+(* PrepareProposal as found: a full mempool and one verified DA item: 13595 bytes for a budget of
+   13558 (the numbers observed on the real application); 13558 after the repair *)
+Theorem C01_prepare_proposal_exceeds_refuted :
+  let sel := fun m : Z => [m] in
+  (forall m, 0 <= m -> zsumL (sel m) <= m) /\ zsumL (prepare_proposal false sel 13558 10 [27]) = 13595 /\
+  zsumL (prepare_proposal true sel 13558 10 [27]) = 13558.
+Proof. exact prepare_proposal_as_found_exceeds. Qed.
+Print Assumptions C01_prepare_proposal_exceeds_refuted.
 
 (* ------------------------------------------------------------------ non-vacuity *)
 (* a concrete block (epoch with two gauges, one pool without in-range liquidity, minute epoch
